@@ -70,6 +70,7 @@ func genMatcher(r *Rng, w *World) Matcher {
 		return string(s[a : a+1+r.Intn(len(s)-a-1)])
 	}
 	isRe := m.Op == "=~" || m.Op == "!~"
+	m.Raw = r.Bool(0.15)
 	if !isRe {
 		switch x := r.Intn(100); {
 		case x < 55:
